@@ -71,7 +71,8 @@ Definition cell_value (s : str) : option str := match s with [] => None | _ => S
    the folder it lies in ([parent], path components) and its last name [name].  A name that ends in .tsv names the
    files <parent>/<stem>_<Suffix>.tsv, any other name -- WHATEVER dots it holds -- is a folder holding
    <name>/<name>_<Suffix>.tsv.  The writer recognises the suffix in any letter case; the reader compared it
-   exactly before fix commit (proposed) fix-F8 ([fixed8] = false) and ignores case with it. *)
+   exactly before fix commit b5f4533 ([fixed8] = false, the repaired finding C05-F8) and ignores case since then
+   ([fixed8] = true, the current code). *)
 Definition is_dot_tsv_ci (name : str) : bool :=
   match rev name with
   | v :: s :: t :: d :: _ :: _ =>
